@@ -50,6 +50,12 @@ struct RefRanlux {
     }
     c.assign(12, 0);
   }
+  /// start from an arbitrary state: the 12 lagged values oldest first and the pending borrow
+  RefRanlux(const uint64_t *oldest_first, int carry, int luxury) : lux(luxury) {
+    s.assign(oldest_first, oldest_first + 12);
+    c.assign(12, 0);
+    c[11] = (uint8_t)carry;
+  }
   void extend(size_t upto) { // make s[upto] available
     while (s.size() <= upto) {
       const size_t n = s.size();
@@ -104,7 +110,7 @@ static const int NCONT = 100;
 
 struct Counters {
   uint64_t states = 0, transitions = 0, restores = 0, outputs_compared = 0, gsl_compared = 0,
-           zeros = 0, refill_boundaries = 0;
+           zeros = 0, refill_boundaries = 0, injected = 0;
 };
 
 /// expected restart image of the generator after p outputs (reference model of the state)
@@ -304,6 +310,93 @@ static void check_seed(const SeedCase &sc, Result &R, Counters &C,
   }
 }
 
+// ---------------------------------------------------------------------------
+// states injected through the restart constructor: a boundary alphabet that
+// makes the borrow decision of every one of the three loops of
+// increment_state (and of ranlux_step) see exact ties (difference 0), borrows
+// of one unit and the extreme values - situations a seeded stream meets with
+// probability 2^-48 per step
+// ---------------------------------------------------------------------------
+static std::string injected_replay(const uint64_t *x, int carry, int r) {
+  std::string a;
+  for (int i = 0; i < 12; ++i)
+    a += fmt("%s%" PRIu64, i ? " " : "", x[i]);
+  return fmt("{\"injected_x\": \"%s\", \"carry\": %d, \"alignment\": %d}", a.c_str(), carry, r);
+}
+/// x[i]: array contents in units of 2^-48; r: number of refills "already done" mod 12
+static void check_injected(const uint64_t *x, int carry, int r, Result &R, Counters &C, bool verbose) {
+  const int NINJ = 36;
+  double xd[12];
+  for (int i = 0; i < 12; ++i)
+    xd[i] = (double)x[i] / TWO48;
+  const double cd = carry ? 1.0 / TWO48 : 0.;
+  const uint_fast32_t ir_old = (uint_fast32_t)r, jr = (uint_fast32_t)((7 + r) % 12),
+                      ir = (uint_fast32_t)((r + 11) % 12), pr = 397;
+  std::string img;
+  img.append((const char *)xd, sizeof(xd));
+  img.append((const char *)&cd, 8);
+  img.append((const char *)&ir, sizeof(ir));
+  img.append((const char *)&jr, sizeof(jr));
+  img.append((const char *)&ir_old, sizeof(ir_old));
+  img.append((const char *)&pr, sizeof(pr));
+  RandomGenerator h = restore(img);
+  uint64_t oldest_first[12];
+  for (int i = 0; i < 12; ++i)
+    oldest_first[i] = x[(r + i) % 12];
+  RefRanlux ref(oldest_first, carry, 397);
+  ++C.states;
+  ++C.injected;
+  R.distinct.insert(fnv1a(img));
+  for (int t = 0; t < NINJ; ++t) {
+    const double u = h.get_uniform_random_double();
+    const uint64_t want = ref.out(t);
+    const double wd = (double)want / TWO48;
+    ++C.transitions;
+    ++R.evaluations;
+    if (verbose && (t < 13 || t % 12 == 0))
+      printf("  injected state: output %d real %a (%.0f/2^48) reference %" PRIu64 "/2^48\n", t, u, u * TWO48, want);
+    if (!(u >= 0. && u < 1.)) {
+      R.violation(fmt("C13:range:outside-[0,1):injected-state:refill-%d", t / 12),
+                  fmt("state x=[%s]/2^48 carry %d alignment %d: output %d = %a (reference %" PRIu64 "/2^48)",
+                      replay_field(injected_replay(x, carry, r), "injected_x").c_str(), carry, r, t, u, want),
+                  injected_replay(x, carry, r));
+      return;
+    }
+    if (bits(u) != bits(wd)) {
+      R.violation(fmt("C13:step-vs-reference:injected-state:refill-%d", t / 12),
+                  fmt("state x=[%s]/2^48 carry %d alignment %d: output %d is %a (%.0f/2^48), reference %" PRIu64
+                      "/2^48",
+                      replay_field(injected_replay(x, carry, r), "injected_x").c_str(), carry, r, t, u,
+                      u * TWO48, want),
+                  injected_replay(x, carry, r));
+      return;
+    }
+  }
+}
+static void injected_states(Result &R, Counters &C, bool thorough) {
+  const uint64_t A[6] = {0, 1, 2, 1ull << 47, M48 - 1, M48};
+  const int maxbits = thorough ? 3 : 2;
+  for (int mask = 0; mask < 4096; ++mask) {
+    if (__builtin_popcount(mask) > maxbits)
+      continue;
+    if (R.out_of_time()) {
+      R.hit_deadline(fmt("injected states: stopped at mask %d", mask));
+      return;
+    }
+    for (int ia = 0; ia < 6; ++ia)
+      for (int ib = 0; ib < 6; ++ib) {
+        if (ia == ib && mask != 0)
+          continue; // same state as mask 0
+        uint64_t x[12];
+        for (int i = 0; i < 12; ++i)
+          x[i] = ((mask >> i) & 1) ? A[ib] : A[ia]; // background a, marked positions b
+        for (int carry = 0; carry < 2; ++carry)
+          for (int r = 0; r < 12; ++r)
+            check_injected(x, carry, r, R, C, false);
+      }
+  }
+}
+
 int main(int argc, char **argv) {
   Args A = parse_args(argc, argv);
   Result R(A);
@@ -369,6 +462,20 @@ int main(int argc, char **argv) {
   if (!A.replay.empty()) {
     const std::string txt = read_file(A.replay);
     const std::string rp = replay_field(txt, "replay");
+    const std::string inj = replay_field(rp, "injected_x");
+    if (!inj.empty()) {
+      uint64_t x[12] = {0};
+      std::istringstream in(inj);
+      for (int i = 0; i < 12; ++i)
+        in >> x[i];
+      const int carry = atoi(replay_field(rp, "carry").c_str()), r = atoi(replay_field(rp, "alignment").c_str());
+      printf("replay: injected state [%s] carry %d alignment %d\n", inj.c_str(), carry, r);
+      check_injected(x, carry, r, R, C, true);
+      for (auto &v : R.violations)
+        printf("  %s :: %s\n", v.key.c_str(), v.detail.c_str());
+      remove_fast_tmpdir(tmpd);
+      return R.finish(A);
+    }
     const int64_t sd = atoll(replay_field(rp, "seed").c_str());
     printf("replay: seed %" PRId64 " (stream of %d outputs, then the save/restore walk)\n", sd, NOUT);
     SeedCase sc{sd, "replay"};
@@ -414,6 +521,8 @@ int main(int argc, char **argv) {
                    sc.seed, sc.cls, RefRanlux(sc.seed).out(0), RefRanlux(sc.seed).out(1),
                    RefRanlux(sc.seed).out(2), PMAX + 1));
   }
+  injected_states(R, C, A.thorough());
+  R.set("injected_boundary_states", (double)C.injected);
   // thorough: a larger contiguous seed range, stream comparison only (no save/restore walk)
   uint64_t stream_only = 0;
   if (A.thorough()) {
